@@ -6,6 +6,7 @@ import numpy as np
 from . import common as C
 from translate import ufunc_deriv as T
 from translate import derivatives as TD
+from translate import gradients as TG
 
 PID = 'C06'
 SHARD_SIZE = 150
@@ -41,7 +42,8 @@ TRUSTED = ['translate/ufunc_deriv.py (Python ast -> Gallina tables), fail-closed
 
 
 def translate():
-    return {'Gen/UfuncDeriv.v': T.translate(), 'Gen/Derivatives.v': TD.translate()}
+    return {'Gen/UfuncDeriv.v': T.translate(), 'Gen/Derivatives.v': TD.translate(),
+            'Gen/Gradients.v': TG.translate()}
 
 
 # ------------------------------------------------------------------ spaces
